@@ -3,6 +3,7 @@
 import Driver.Util
 import Driver.C15
 import Driver.SrvMerge
+import Driver.NsReg
 import Driver.CFilter
 import Driver.RaftLog
 import Driver.DataZSet
@@ -47,6 +48,7 @@ def main (args : List String) : IO UInt32 := do
   | ["cfilter"] => loop Drv.CFilter.step hin hout (); hout.flush; return 0
   | ["srvmerge"] => loop Drv.SrvMerge.step hin hout 3; hout.flush; return 0
   | ["c15"] => loop Drv.C15.step hin hout (); hout.flush; return 0
+  | ["nsreg"] => loop Drv.NsReg.step hin hout Z.Reg.empty; hout.flush; return 0
   | ["wal"] => loop Drv.Wal.step hin hout {}; hout.flush; return 0
   | ["lin"] => loop Drv.Lin.step hin hout (); hout.flush; return 0
   | ["crash"] => loop Drv.Crash.step hin hout (); hout.flush; return 0
